@@ -163,6 +163,16 @@ def run(chk):
                         chk.violated("R3", i2, why, short(v[1].get("def_loc", v[1]["loc"])))
                     else:
                         chk.inconclusive("R3", i2, why, short(v[1].get("def_loc", v[1]["loc"])))
+    # R6: the plain-number entry points compose the two kernels in the right order (affine maps do not commute)
+    from . import c02
+    chk.rule("R6", "Convert / ConvertInPlace / ConvertStatically on a plain number apply To_X first and From_Y second (the composed affine map is From_Y o To_X; "
+                   "for the offset units the order matters), and converting a unit to itself is the identity")
+    n_entry = 0
+    for T in NUMERIC:
+        F = facts.load(T, chk.tier)
+        M = UnitModel(F)
+        n_entry += c02.free_overloads(chk, F, M, c02.Conv(M), T, r3="R6", r4="R6", only_shapes={"scalar"})
+    chk.floor("plain-number conversion entry point instances", n_entry, 300)
     if chk.tier == "thorough":
         all_pairs(chk)
     chk.floor("unit types", n_types, 37)
